@@ -235,3 +235,59 @@ func vC08Letter() string {
 	vrt.Assume(c >= 'a' && c <= 'z')
 	return string([]byte{c})
 }
+
+// Pooled checked entries: whatever an earlier user attached (cores, after-hook, error output) is gone when
+// the entry is handed out again.
+//
+//verif: prop=C08 bounds="a checked entry obtained directly from a core (one failing core, no error output, no hook) and written; then 1..2 history entries from {entry with a foreign error output and a failing core, entry with an after-hook, entry fanned out to 3 cores, entry that is checked but never written}; then the first entry again with pool reuse nondeterministic: the same single core is written once, nothing reaches the foreign error output, no earlier hook runs"
+func VC08CheckedEntry() {
+	fail := &vFailCore{err: errors.New("sink failed")}
+	foreign := &vBytesSink{}
+	ent := Entry{Level: InfoLevel, Message: "observed"}
+	run := func() (writes int, reports int) {
+		w0, r0 := fail.writes, len(foreign.writes)
+		if ce := fail.Check(ent, nil); ce != nil {
+			ce.Write(Field{Key: "k", Type: Int64Type, Integer: 1})
+		}
+		return fail.writes - w0, len(foreign.writes) - r0
+	}
+	w1, r1 := run()
+	nh := 1 + vrt.Choice("nhist", 2)
+	for i := 0; i < nh; i++ {
+		hent := Entry{Level: ErrorLevel, Message: "history"}
+		switch vrt.Choice(fmt.Sprintf("hist%d", i), 4) {
+		case 0: // what zap.Logger does: error output attached, a core that fails
+			other := &vFailCore{err: errors.New("other failed")}
+			if ce := other.Check(hent, nil); ce != nil {
+				ce.ErrorOutput = foreign
+				ce.Write()
+			}
+		case 1:
+			a := vNewRecCore("ha", DebugLevel)
+			if ce := a.Check(hent, nil); ce != nil {
+				ce = ce.After(hent, vC08Hook{})
+				ce.Write()
+			}
+		case 2:
+			a, b, c := vNewRecCore("ha", DebugLevel), vNewRecCore("hb", DebugLevel), vNewRecCore("hc", DebugLevel)
+			if ce := NewTee(a, b, c).Check(hent, nil); ce != nil {
+				ce.ErrorOutput = foreign
+				ce.Write()
+			}
+		case 3:
+			a := vNewRecCore("ha", DebugLevel)
+			_ = a.Check(hent, nil) // never written: stays out of the pool
+		}
+	}
+	base := len(foreign.writes)
+	vrt.ResetEvents()
+	vrt.PoolNondetFirst(3, 0)
+	w2, _ := run()
+	vrt.PoolNondet(false)
+	vrt.Observe("writes", w2)
+	vrt.Assert("first-use-writes-its-core-once-and-reports-nowhere", w1 == 1 && r1 == 0)
+	vrt.Assert("same-core-written-once-again", w2 == 1)
+	vrt.Assert("nothing-reaches-an-earlier-users-error-output", len(foreign.writes) == base)
+	vrt.Assert("no-hook-of-an-earlier-entry-runs", vCountEvents("history-hook:") == 0)
+	vrt.Cover("done")
+}
